@@ -521,6 +521,14 @@ func (w *world) apply(a *Action, ds []*daemon) {
 			w.log.Add(e)
 			c.deliver(packet{b: b, src: src, hop: hop})
 		}
+		if a.Then != nil {
+			t := *a.Then
+			if t.If == "" {
+				t.If = a.If
+			}
+			t.Node = a.Node
+			w.apply(&t, ds)
+		}
 	case "fwd":
 		if ifc != nil {
 			w.mu.Lock()
